@@ -167,6 +167,25 @@ def check_hier(rng, X, w, desc):
         bad.append(("hier-min-points", f"accepted split left a child with {sizes.min()} < min_points={mp} (sizes {sizes.tolist()})"))
     if len(h.cluster_centers_) != K or len(h.cluster_covariances_) != K or len(h.cluster_weights_) != K:
         bad.append(("hier-arity", "centers/covariances/weights do not all have K entries"))
+    lo_all, hi_all = X.min(0), X.max(0)
+    span_all = np.maximum(hi_all - lo_all, 1e-300)
+    for k in range(min(K, len(h.cluster_centers_), len(h.cluster_covariances_))):
+        cen = np.asarray(h.cluster_centers_[k], float)
+        cov = np.asarray(h.cluster_covariances_[k], float)
+        if not np.all(np.isfinite(cen)) or not np.all(np.isfinite(cov)):
+            bad.append(("hier-nonfinite", f"cluster {k}: non-finite centre / covariance"))
+            continue
+        pts = X[lab == k]
+        if len(pts) >= d:
+            tolb = 1e-6 * (np.abs(lo_all) + np.abs(hi_all) + span_all)
+            if np.any(cen < pts.min(0) - tolb) or np.any(cen > pts.max(0) + tolb):
+                bad.append(("hier-centre-outside", f"cluster {k}: centre {cen} outside the bounding box of its own {len(pts)} training points"))
+        if ct == "full":     # (for 'diag' the hierarchical model stores a (1,d) array / a broadcast d x d product: not a stated invariant)
+            ok, sym = psd_ok(cov, float(np.max(span_all) ** 2))
+            if cov.shape != (d, d) or not sym:
+                bad.append(("hier-cov-asymmetric", f"cluster {k}: covariance not a symmetric d x d matrix (normalize={norm})"))
+            elif not ok:
+                bad.append(("hier-cov-not-psd", f"cluster {k}: covariance has a negative eigenvalue (normalize={norm})"))
     cw = np.asarray(h.cluster_weights_)
     if np.any(cw < 0) or abs(cw.sum() - 1) > 1e-9:
         bad.append(("hier-weights", f"cluster weights {cw}"))
